@@ -5,6 +5,34 @@ package uu
 // Contracts for the verification machinery in /verif (govc).  This file is
 // comment-only and is compiled only with -tags verif.
 
+// ---- specification: Perl's pack("u") in closed form
+// uuchar: a six-bit value as a uuencode character (0 is a backtick).
+//@ spec uuchar(s byte) byte = cond(s == 0, '`', s + 32)
+// sext: the r-th six-bit group of the three bytes a b c.
+//@ spec sext(a byte, b byte, c byte, r int) byte = cond(r == 0, a>>2, cond(r == 1, (a<<4 | b>>4) & 63, cond(r == 2, (b<<2 | c>>6) & 63, c & 63)))
+// encLen: length of the encoding of n bytes (45-byte lines: length byte, 4 characters per 3 bytes, newline).
+//@ spec encLen(n int) int = 62*(n/45) + cond(n%45 == 0, 0, 2 + 4*((n%45+2)/3))
+// fill: number of plain bytes on encoded line L of an n-byte input.
+//@ spec fill(n int, L int) int = min(45, n - 45*L)
+// xat: byte i of x, zero beyond lim (the padding Perl adds).
+//@ spec xat(x []byte, i int, lim int) byte = cond(i < lim, x[i], 0)
+// encByte: byte p of the encoding of x.
+//@ spec encByte(x []byte, p int) byte = cond(p%62 == 0, byte(32 + fill(len(x), p/62)), cond(p%62 == 1 + 4*((fill(len(x), p/62)+2)/3), '\n', uuchar(sext(xat(x, 45*(p/62) + 3*((p%62-1)/4), 45*(p/62) + fill(len(x), p/62)), xat(x, 45*(p/62) + 3*((p%62-1)/4) + 1, 45*(p/62) + fill(len(x), p/62)), xat(x, 45*(p/62) + 3*((p%62-1)/4) + 2, 45*(p/62) + fill(len(x), p/62)), (p%62-1)%4))))
+
+//@ lemma{C15} encLenBound(n int): imp(n >= 0, 0 <= encLen(n) && encLen(n) <= 63*(1 + n/45))
+//@ lemma{C15} encLenFullLines(k int): imp(k >= 0, encLen(45*k) == 62*k)
+//@ lemma{C15} encLenMonotone(a int, b int): imp(0 <= a && a <= b, encLen(a) <= encLen(b))
+
+//@ func MaxEncodedLen(b) (n)
+//@   props C15
+//@   ensures never_underestimates: n >= encLen(len(b))
+//@   ensures formula: n == 63 * (1 + len(b)/45)
+
+//@ func MaxDecodedLen(b) (n)
+//@   props C15
+//@   ensures formula: n == 1 + (len(b)*16)/3
+//@   ensures at_least_the_input_length: n >= len(b)
+
 //@ func AppendDecode(dst, src) (res, err)
 //@   props C15
 //@   loop 1 counter lineN
@@ -14,5 +42,27 @@ package uu
 //@   loop 1.1.1
 //@   loop 1.1.2
 
+// AppendEncode: the result is the old dst followed by the Perl-compatible
+// encoding of src; neither src nor the old contents of dst are modified.
 //@ func AppendEncode(dst, src) (res)
 //@   props C15
+//@   requires sizes: len(src) <= 72057594037927936 && len(dst) <= 72057594037927936
+//@   requires spare_capacity_of_dst_does_not_overlap_src: disjointSpare(dst, src)
+//@   ensures length: len(res) == len(dst) + encLen(len(src))
+//@   ensures old_contents_of_dst_kept: forall(q, 0 <= q && q < len(dst), res[q] == old(dst[q]))
+//@   ensures encoding_is_perls: forall(p, 0 <= p && p < encLen(len(src)), res[len(dst)+p] == encByte(src, p))
+//@   ensures src_not_modified: forall(i, 0 <= i && i < len(src), src[i] == old(src[i]))
+//@   loop 1 counter k
+//@     invariant consumed: 0 <= k && (k == 0 || 45*(k-1) < len(src))
+//@     invariant length: len(dst) == len(old(dst)) + encLen(min(45*k, len(src)))
+//@     invariant apart: disjointSpare(dst, src)
+//@     invariant prefix: forall(q, 0 <= q && q < len(old(dst)), dst[q] == old(dst[q]))
+//@     invariant source: forall(i, 0 <= i && i < len(src), src[i] == old(src[i]))
+//@     invariant encoded: forall(p, 0 <= p && p < encLen(min(45*k, len(src))), dst[len(old(dst))+p] == encByte(src, p))
+//@   loop 1.1 counter j
+//@     invariant progress: 0 <= j && 3*j <= len(line) + 2
+//@     invariant length: len(dst) == len(old(dst)) + 62*k + 1 + 4*j
+//@     invariant apart: disjointSpare(dst, src)
+//@     invariant prefix: forall(q, 0 <= q && q < len(old(dst)), dst[q] == old(dst[q]))
+//@     invariant source: forall(i, 0 <= i && i < len(src), src[i] == old(src[i]))
+//@     invariant encoded: forall(p, 0 <= p && p < 62*k + 1 + 4*j, dst[len(old(dst))+p] == encByte(src, p))
